@@ -267,15 +267,89 @@ func ruleC18R3(r *Run) {
 		r.Undecided("genUintNBiased#width", dbs[0].Instr.Pos(), "the drawn width is not a phi of the bit-length choices: "+p.expr(dbs[0].Arg(0)))
 		return
 	}
-	isN := func(v ssa.Value) bool {
+	const nMax = int64(1) << 40
+	// n = genGeom(…)+1, possibly clamped (a phi of n and constants, e.g. `if n > 64 { n = 64 }`): its domain as an
+	// interval, exact only if the pieces are contiguous
+	var nDom func(v ssa.Value, d int) (int64, int64, bool)
+	nDom = func(v ssa.Value, d int) (int64, int64, bool) {
 		v = p.stripConv(v)
-		bo, ok := v.(*ssa.BinOp)
-		if !ok || bo.Op != token.ADD {
-			return false
+		if bo, ok := v.(*ssa.BinOp); ok && bo.Op == token.ADD {
+			c, okc := p.resolve(bo.X).(*ssa.Call)
+			one, ok1 := constInt(p.resolve(bo.Y))
+			if okc && ok1 && one == 1 && p.calleeKey(c.Common()) == "genGeom" {
+				return 1, nMax, true
+			}
+			return 0, 0, false
 		}
-		c, okc := p.resolve(bo.X).(*ssa.Call)
-		one, ok1 := constInt(p.resolve(bo.Y))
-		return okc && ok1 && one == 1 && p.calleeKey(c.Common()) == "genGeom"
+		ph, ok := v.(*ssa.Phi)
+		if !ok || d > 2 {
+			return 0, 0, false
+		}
+		have := false
+		var lo, hi int64
+		for i, e := range ph.Edges {
+			er := p.stripConv(e)
+			var l, h int64
+			if c, ok := constInt(er); ok {
+				l, h = c, c
+			} else {
+				var ok bool
+				l, h, ok = nDom(er, d+1)
+				if !ok {
+					return 0, 0, false
+				}
+				// the edge is taken only under its guards on that same value
+				pred := ph.Block().Preds[i]
+				gs := guardsOf(pred)
+				if iff, ok := pred.Instrs[len(pred.Instrs)-1].(*ssa.If); ok && pred.Succs[0] != pred.Succs[1] {
+					gs = append(gs, guard{Cond: iff.Cond, Pol: pred.Succs[0] == ph.Block(), If: iff})
+				}
+				for _, g := range gs {
+					bo, ok := p.resolve(g.Cond).(*ssa.BinOp)
+					if !ok {
+						continue
+					}
+					op := bo.Op.String()
+					if _, cmp := negOp[op]; !cmp {
+						continue
+					}
+					if !g.Pol {
+						op = negOp[op]
+					}
+					x, y := bo.X, bo.Y
+					if p.stripConv(y) == er {
+						x, y, op = y, x, flipOp[op]
+					}
+					c, isC := constInt(p.stripConv(y))
+					if p.stripConv(x) != er || !isC {
+						continue
+					}
+					switch op {
+					case "<":
+						h = min64(h, c-1)
+					case "<=":
+						h = min64(h, c)
+					case ">":
+						l = max64(l, c+1)
+					case ">=":
+						l = max64(l, c)
+					}
+				}
+			}
+			if !have {
+				lo, hi, have = l, h, true
+				continue
+			}
+			if l > hi+1 || h < lo-1 {
+				return 0, 0, false // not an interval
+			}
+			lo, hi = min64(lo, l), max64(hi, h)
+		}
+		return lo, hi, have
+	}
+	isN := func(v ssa.Value) bool {
+		_, _, ok := nDom(v, 0)
+		return ok
 	}
 	type edge struct {
 		kind  string // full | max | narrow
@@ -326,7 +400,6 @@ func ruleC18R3(r *Run) {
 	type missing struct{ full, max, narrow []int }
 	var miss missing
 	undecided := ""
-	const nMax = int64(1) << 40
 	for L := int64(1); L <= 64; L++ {
 		env := map[ssa.Value]num{Lval: {i: L}}
 		sat := map[string]bool{}
@@ -360,6 +433,9 @@ func ruleC18R3(r *Run) {
 				x, y := bo.X, bo.Y
 				if isN(y) && !isN(x) {
 					x, y, op = y, x, flipOp[op]
+				}
+				if dl, dh, ok := nDom(x, 0); ok {
+					lo, hi = max64(lo, dl), min64(hi, dh)
 				}
 				if !isN(x) {
 					// a guard without n: must fold to a constant truth value
